@@ -66,6 +66,7 @@ STDLIB_TRUSTED = {
     "pyrsistent.optional": "constructor",
     "pyrsistent.PClass.__new__": "constructs an immutable record",
     "collections.OrderedDict": "constructor",
+    "collections.namedtuple.instance": "constructor of a namedtuple record type defined in the module: stores its arguments",
     "importlib.util.find_spec": "import machinery (module load time only)",
     "types.ModuleType": "constructor",
     "os.path.basename": "string op",
@@ -579,6 +580,12 @@ class Typer:
                 return [Target("builtin", fn.id)]
             if r[0] == "ext":
                 return [Target("ext", r[1])]
+            if r[0] == "modvar":
+                # a record type made by collections.namedtuple / typing.NamedTuple at import time: its constructor only stores its arguments
+                vals_ = [v for v in r[1].assigns.get(r[2], []) if isinstance(v, ast.AST)]
+                if len(vals_) == 1 and isinstance(vals_[0], ast.Call) and isinstance(vals_[0].func, (ast.Name, ast.Attribute)) \
+                        and (vals_[0].func.id if isinstance(vals_[0].func, ast.Name) else vals_[0].func.attr) in ("namedtuple", "NamedTuple"):
+                    return [Target("ext", "collections.namedtuple.instance")]
             if r[0] in ("local", "modvar"):
                 ts = self._type(module, func, fn, depth + 1)
                 out = self._targets_from_callable_types(ts)
